@@ -84,6 +84,35 @@ theorem fan_step_w_some {f : Fan.St} {i : Nat} {a : Fan.WAct} (hpc : Fan.pc f i 
   have h1 := Fan.getElem?_of_getD (w := a.pre) hpc hne
   exact ⟨_, by simp only [Fan.step]; exact if_pos ⟨h1, fun h => absurd h ha⟩⟩
 
+/-- when a second passes the watchdog is asleep: either its poll instant lies ahead, or (repair variant) it has
+    been stopped — but then dsh() is about to return, which would come first -/
+theorem tick_lt_wake {s s' : St} (h : step s .tick = some s') : s.now < s.wake := by
+  obtain ⟨hq, _⟩ := step_tick_facts h
+  have hnr := step_tick_notret h
+  have := quiescent_none hq (mem_cands_scan s)
+  simp only [dstep] at this
+  split at this
+  · simp at this
+  · rename_i hg
+    cases hlt : decide (s.now < s.wake) with
+    | true => exact of_decide_eq_true hlt
+    | false =>
+      exfalso
+      have hle : s.wake ≤ s.now := by have := of_decide_eq_false hlt; omega
+      have hst : s.cfg.stopWdog = true ∧ (s.fan.dpc = .finishing ∨ s.fan.dpc = .returned) := by
+        cases hd : decide (s.cfg.stopWdog = true ∧ (s.fan.dpc = .finishing ∨ s.fan.dpc = .returned)) with
+        | true => exact of_decide_eq_true hd
+        | false => exact absurd ⟨hle, of_decide_eq_false hd⟩ hg
+      rcases hst.2 with hfin | hret
+      · -- the return of dsh() is enabled: the clock cannot advance
+        have hf : Fan.step s.fan (.d .ret) = some { s.fan with dpc := .returned } := by simp [Fan.step, hfin]
+        have hen := dstep_fan_some (s := s) hf (by simp [fanGuard])
+        have hm : Label.fan (.d .ret) ∈ cands s := by
+          simp only [cands, List.mem_cons, List.mem_append, List.mem_map]
+          left; right; exact ⟨.ret, by simp [Fan.dActs], rfl⟩
+        rw [quiescent_none hq hm] at hen; cases hen
+      · exact hnr hret
+
 /-! ## preservation -/
 
 theorem tinv_step {s s' : St} {l : Label} (hi : TInv s) (h : step s l = some s') : TInv s' := by
@@ -200,12 +229,7 @@ theorem tinv_step {s s' : St} {l : Label} (hi : TInv s) (h : step s l = some s')
     have hfan : s'.fan = s.fan := by rw [he]
     have hnow : s'.now = s.now + 1 := by rw [he]
     have hwake : s'.wake = s.wake := by rw [he]
-    have hlt : s.now < s.wake := by
-      have := quiescent_none hq (mem_cands_scan s)
-      simp only [dstep] at this
-      split at this
-      · simp at this
-      · omega
+    have hlt : s.now < s.wake := tick_lt_wake h
     refine { fan := by rw [hfan]; exact hi.fan, lenH := by rw [hpar.2.2, hfan]; exact hi.lenH, sync := ?_,
              nowWake := by rw [hnow, hwake]; omega, wakeNow := by rw [hnow, hwake]; have := hi.wakeNow; omega,
              hosts := ?_ }
